@@ -19,6 +19,10 @@ def jobs(tier):
                    unwind=6, kind="bounded", canary=True, functions=["_vnacommon_qrsolve (rank decision)"],
                    bound="3x2 system, one right-hand side; the diagonal of R left by the factorisation (assumed contract), A and b: all doubles",
                    timeout=300, cbmc_flags=["--no-leak", "--slice-formula"]))
+    J.append(V.Job("minverse_singular", H, "h_minverse_singular", ["vnacommon_minverse.c"], stubs=["verif_libc.c"], defines=["-DH_MINVERSE"],
+                   unwind=6, kind="bounded", canary=True, functions=["_vnacommon_minverse (substitution after the factorisation)"],
+                   bound="2x2; any L, U within +-1e6 with an exactly zero first or last pivot, either row order (factorisation by assumed contract)",
+                   timeout=600, cbmc_flags=["--no-leak"]))
     import C20
     for t in (("VNACAL_T8", "VNACAL_U8") if tier == "quick" else ("VNACAL_T8", "VNACAL_U8", "VNACAL_TE10", "VNACAL_UE10", "VNACAL_T16", "VNACAL_U16")):
         J.append(V.Job("ab_reduction.%s" % t[7:], "vnacal/c19_ab.c", "h_ab_reduction", C20.BASE, defines=C20.CUT + ["-DCAL_TYPE=%s" % t],
